@@ -155,6 +155,10 @@ def run(tier, seed):
             cur = open(marker).read().strip() if os.path.exists(marker) else "?"
             p = [x for x in out_plans if x["id"] == cur]
             v.violation("hostile:abort", "the driver process died (rc %s: abort / stack overflow / refused allocation) while processing plan %s: %s" % (rc, cur, err[-300:]), {"plan": p[:1]})
+        if v.violations:
+            # a killed driver may have stopped in the middle of a line: keep what is complete, without the run in flight
+            core.keep_complete_lines(trace, drop_last_run=True)
+            core.keep_complete_lines(blobs)
         dec = core.pass_a(blobs, decoded, wd)
         accepted, rejects = core.tv_all("Trace_Activation", trace, decoded, wd, shards=8, max_rejects=12)
         byid = {p["id"]: p for p in out_plans}
